@@ -344,6 +344,8 @@ struct FileCtx<'a> {
     field_types: HashMap<String, String>,
     /// unit id -> parameter / local names in declaration order (rule A1)
     locals_out: BTreeMap<String, Vec<String>>,
+    /// units whose function is not `pub` (private helpers): only these may be demoted
+    private_units: Vec<String>,
     /// I1: same-file helpers without a contract whose body is written out at their call sites
     inline_map: HashMap<String, InlineInfo>,
     no_inline: bool,
@@ -1558,6 +1560,9 @@ fn process_fn(
     // the same order, different names)
     let now = fn_locals(sig, block);
     fc.locals_out.insert(u.id.clone(), now.clone());
+    if matches!(_vis, Visibility::Inherited) && !in_trait_decl {
+        fc.private_units.push(u.id.clone());
+    }
     let renamed: UnitCfg;
     let u: &UnitCfg = if !u.locals_base.is_empty() && u.locals_base.len() == now.len() && u.locals_base != now {
         let mut map: HashMap<String, String> = HashMap::new();
@@ -2524,7 +2529,7 @@ fn main() {
                 }
             }
         }
-        let mut fc = FileCtx { cfg: &cfg, src: &src, edits: vec![], rule_counts: BTreeMap::new(), errors: vec![], warnings: vec![], degraded: vec![], extra_eff: extra_eff.clone(), fname: fname.clone(), ro_violations: vec![], field_types: field_types.clone(), locals_out: BTreeMap::new(), inline_map: HashMap::new(), no_inline: false };
+        let mut fc = FileCtx { cfg: &cfg, src: &src, edits: vec![], rule_counts: BTreeMap::new(), errors: vec![], warnings: vec![], degraded: vec![], extra_eff: extra_eff.clone(), fname: fname.clone(), ro_violations: vec![], field_types: field_types.clone(), locals_out: BTreeMap::new(), private_units: vec![], inline_map: HashMap::new(), no_inline: false };
         // segments to keep: (start, end, kind, name)
         let mut segs: Vec<(usize, usize, String, String)> = vec![];
         let mut found_units: HashSet<String> = HashSet::new();
@@ -2561,7 +2566,7 @@ fn main() {
                 if !simple_params || !f.sig.generics.params.is_empty() || f.sig.asyncness.is_some() || block_leaves(&f.block) || ids.contains(&name) {
                     continue;
                 }
-                let mut scratch = FileCtx { cfg: &cfg, src: &src, edits: vec![], rule_counts: BTreeMap::new(), errors: vec![], warnings: vec![], degraded: vec![], extra_eff: extra_eff.clone(), fname: fname.clone(), ro_violations: vec![], field_types: field_types.clone(), locals_out: BTreeMap::new(), inline_map: HashMap::new(), no_inline: true };
+                let mut scratch = FileCtx { cfg: &cfg, src: &src, edits: vec![], rule_counts: BTreeMap::new(), errors: vec![], warnings: vec![], degraded: vec![], extra_eff: extra_eff.clone(), fname: fname.clone(), ro_violations: vec![], field_types: field_types.clone(), locals_out: BTreeMap::new(), private_units: vec![], inline_map: HashMap::new(), no_inline: true };
                 process_fn(&mut scratch, &f.attrs, &f.vis, &f.sig, Some(&f.block), &u, &nested, &name, false);
                 let mut errs = vec![];
                 let (body, _) = apply_edits(&src, range_of(&*f.block), &scratch.edits, &mut errs);
@@ -2614,7 +2619,7 @@ fn main() {
                             || ids.contains(&format!("Self::{name}")) || !cfg.env.attrs_on(&m.attrs).unwrap_or(false) || fc.inline_map.contains_key(&format!("::{name}")) {
                             continue;
                         }
-                        let mut scratch = FileCtx { cfg: &cfg, src: &src, edits: vec![], rule_counts: BTreeMap::new(), errors: vec![], warnings: vec![], degraded: vec![], extra_eff: extra_eff.clone(), fname: fname.clone(), ro_violations: vec![], field_types: field_types.clone(), locals_out: BTreeMap::new(), inline_map: HashMap::new(), no_inline: true };
+                        let mut scratch = FileCtx { cfg: &cfg, src: &src, edits: vec![], rule_counts: BTreeMap::new(), errors: vec![], warnings: vec![], degraded: vec![], extra_eff: extra_eff.clone(), fname: fname.clone(), ro_violations: vec![], field_types: field_types.clone(), locals_out: BTreeMap::new(), private_units: vec![], inline_map: HashMap::new(), no_inline: true };
                         process_fn(&mut scratch, &m.attrs, &m.vis, &m.sig, Some(&m.block), &u, &nested, &name, false);
                         let mut errs = vec![];
                         let (body, _) = apply_edits(&src, range_of(&m.block), &scratch.edits, &mut errs);
@@ -3002,7 +3007,7 @@ fn main() {
         out_files.insert(
             fname.clone(),
             json!({ "segments": rendered, "dropped": dropped, "warnings": fc.warnings, "degraded": fc.degraded,
-                    "auto_units": auto_names, "auto_items": auto_items, "ro_violations": fc.ro_violations, "missing_units": missing_units, "lifted": lift_log, "lift_missing": lift_missing, "locals": fc.locals_out, "inlined_helpers": inlined_helpers }),
+                    "auto_units": auto_names, "auto_items": auto_items, "ro_violations": fc.ro_violations, "missing_units": missing_units, "lifted": lift_log, "lift_missing": lift_missing, "locals": fc.locals_out, "inlined_helpers": inlined_helpers, "private_units": fc.private_units }),
         );
     }
     let out = json!({ "files": out_files, "errors": all_errors, "rule_counts": total_rules });
